@@ -311,6 +311,46 @@ class BStr:
                 conj.append(z3.Or(i >= self.n, z3.Or(*[c == w for w in _WS if self.kind == 't' or w < 128])))
             return self._ret_bool(z3.And(*conj))
 
+    def _ws_term(self, c):
+        return z3.Or(*[c == w for w in _WS if self.kind == 't' or w < 128])
+
+    def _lead_ws(self):
+        """z3 term: number of leading whitespace characters"""
+        # first index that is not whitespace (or n)
+        e = self.n
+        for i in reversed(range(len(self.ch))):
+            e = z3.If(z3.And(i < self.n, z3.Not(self._ws_term(self.ch[i]))), z3.IntVal(i), e)
+        return _simp(e)
+
+    def _trail_end(self):
+        """z3 term: index just past the last non-whitespace character (0 if none)"""
+        e = z3.IntVal(0)
+        for i in range(len(self.ch)):
+            e = z3.If(z3.And(i < self.n, z3.Not(self._ws_term(self.ch[i]))), z3.IntVal(i + 1), e)
+        return _simp(e)
+
+    def strip(self, chars=None):
+        if chars is not None:
+            raise NotImplementedError('BStr.strip(chars)')
+        with NoTracing():
+            lo, hi = self._lead_ws(), self._trail_end()
+            hi = _simp(z3.If(hi < lo, lo, hi))
+            return BStr(_simp(hi - lo), [_simp(self._at(_simp(lo + i))) for i in range(len(self.ch))], self.kind)
+
+    def lstrip(self, chars=None):
+        if chars is not None:
+            raise NotImplementedError('BStr.lstrip(chars)')
+        with NoTracing():
+            lo = self._lead_ws()
+            return BStr(_simp(self.n - lo), [_simp(self._at(_simp(lo + i))) for i in range(len(self.ch))], self.kind)
+
+    def rstrip(self, chars=None):
+        if chars is not None:
+            raise NotImplementedError('BStr.rstrip(chars)')
+        with NoTracing():
+            hi = self._trail_end()
+            return BStr(hi, list(self.ch), self.kind)
+
     def isascii(self):
         with NoTracing():
             return self._ret_bool(z3.And(*[z3.Or(i >= self.n, c < 128) for i, c in enumerate(self.ch)]))
